@@ -222,7 +222,7 @@ func c11Case(r *evid.Run, tier string, idx int, g *rng.R) {
 	}
 	vars := []vb{
 		{"", "n", 3.5, xsel.Number(3.5)}, {"", "s", "a", xsel.String("a")}, {"", "b", true, xsel.Bool(true)}, {"", "e", "", xsel.String("")},
-		{"", "fwd", vset, fwd}, {"", "rev", vset, rev}, {"", "empty", refeval.NodeSet{}, xsel.NodeSet{}},
+		{"", "fwd", vset, fwd}, {"", "rev", vset, rev}, {"", "empty", refeval.NodeSet{}, xsel.NodeSet{}}, {"", "shuf", vset, shuffled(g, fwd)},
 		{nsP, "n", 7.0, xsel.Number(7)}, {nsP, "set", vset, rev},
 		{"", "count", 9.0, xsel.Number(9)}, // a variable named like a builtin function
 	}
@@ -486,4 +486,10 @@ func c11Reserialise(r *evid.Run, idx int, g *rng.R, d *adoc.Doc, env *bindEnv, g
 		}
 	}
 	_ = d2
+}
+
+func shuffled(g *rng.R, ns xsel.NodeSet) xsel.NodeSet {
+	out := append(xsel.NodeSet{}, ns...)
+	rng.Shuffle(g, out)
+	return out
 }
